@@ -29,7 +29,11 @@ R = Registry(
         "rows reach the result only sorted by the sentinel or looked up in parameter order after the cardinality "
         "check (documented InvalidRequestError), unmatched keys raise, sort_by_parameter_order is taken from the "
         "compiled statement only when RETURNING is in effect; sentinel capability tables name existing enum "
-        "members consistently."
+        "members consistently.  Whatever the shape of the batch loop, the bookkeeping that decides which parameter sets a "
+        "batch carries (working lists, page size and its reduction to insertmanyvalues_max_parameters, offsets, counters, "
+        "total_batches) is executed on models: every parameter set is delivered exactly once, in order, with the compiled "
+        "set of the same row.  orm/persistence._emit_insert_statements: the executemany INSERT whose RETURNING rows are "
+        "paired positionally with the flushed states carries sort_by_parameter_order on every path."
     ),
     not_decided="correspondence of returned rows to parameter sets on a backend; the SQL text of each batch.",
 )
@@ -390,7 +394,10 @@ def _r1_by_execution(ctx, f, pm, w, base, params_p, cparams_p, ya, report_all):
             if "ZeroDivisionError" in e.what:
                 return None
             raise SE.Unsupported(f"the bookkeeping raises on the model: {e.what}")
-        if any(isinstance(v, int) and not isinstance(v, bool) and v < 0 for v in it.free_values.values()):
+        # a model in which a count / size of the bookkeeping went negative (or the page size below one row) makes no sense:
+        # the dialect's parameter limit always admits at least one row
+        if any(isinstance(v, int) and not isinstance(v, bool) and v < 0 for n, v in env.items() if n in rel) or \
+                (isinstance(env.get(size_p), int) and env[size_p] < 1):
             return None
         return it.out, dict(it.free_values)
 
@@ -491,7 +498,8 @@ def _brief(xs):
 @R.rule("C12-R1", floor=10, template="T-SIBLING/T-FLOW",
         desc="compiler-level batching: same slice bound read and consumed on both parallel lists, one yield and one "
              "counter increment per round, batch fields carry the matching slices, total_batches == number of "
-             "rounds, row-at-a-time branch pairs the two lists one to one")
+             "rounds, the executed bookkeeping (any loop shape, page size reduced by the dialect's parameter limit) "
+             "delivers every parameter set once and in order, row-at-a-time branch pairs the two lists one to one")
 def r1(ctx):
     f = ctx.func(CB)
     g = ctx.cfg(f)
@@ -1240,8 +1248,8 @@ R.mutant("r4-post-values-clause-rendered-before-imv-exists", COMP,
                sub("            post_values_clause = self.process(\n                insert_stmt._post_values_clause, **kw\n            )\n",
                    "            post_values_clause = post_values_text\n")), "C12-R4")
 R.mutant("benign-r4-consumer-conjuncts-reordered", COMP,
-         sub("            imv.has_upsert_bound_parameters\n            and not imv.embed_values_counter\n            and self._result_columns\n",
-             "            self._result_columns\n            and imv.has_upsert_bound_parameters\n            and not imv.embed_values_counter\n"), None)
+         sub("        elif imv.has_upsert_bound_parameters and self._result_columns:\n",
+             "        elif self._result_columns and imv.has_upsert_bound_parameters:\n"), None)
 R.mutant("benign-r4-imv-normalised-with-replace-after-post-values", COMP,
          sub("        if returning_clause and not self.returning_precedes_values:\n            text += \" \" + returning_clause\n",
              "        if returning_clause and not self.returning_precedes_values:\n            text += \" \" + returning_clause\n"
